@@ -100,7 +100,8 @@ EXPECTED_PROBES = [
     "probe.t_positive_latency_received", "probe.t_unsubscribed_during_fanout",
     "probe.t_active_set_changed", "probe.t_resubscribed", "probe.l_rebalance_multi", "probe.l_retention_expired",
     "probe.l_commit_smaller", "probe.l_churn_during_poll", "probe.l_bounce_inside_rebalance_delay",
-    "probe.l_assignment_checked_at_quiescence", "fault.crash", "fault.pause",
+    "probe.l_assignment_checked_at_quiescence", "probe.l_partially_stale_multi_partition_commit",
+    "probe.l_poll_after_commit_returns_records", "fault.crash", "fault.pause",
 ]
 SHRINK_SKIP = ("klass", "mode")
 SELFTEST_RUNS = 8
@@ -204,9 +205,11 @@ def gen_log(rng):
         elif r < 0.7:
             ops.append({"t": t, "who": m, "kind": "poll", "max": rng.choice([1, 3, 10, 100])})
         elif r < 0.9:
-            how = "polled" if mode == "monotone-commits" else rng.choice(["polled", "polled", "rewind", "fixed"])
+            how = "polled" if mode == "monotone-commits" else rng.choice(
+                ["polled", "polled", "rewind", "fixed", "mixed", "mixed", "saved", "dup", "map"])
             ops.append({"t": t, "who": m, "kind": "commit", "how": how, "k": rng.randint(1, 3),
-                        "pid": rng.randrange(6), "off": rng.randrange(8)})
+                        "pid": rng.randrange(6), "off": rng.randrange(8), "mask": rng.getrandbits(6),
+                        "map": [[p, rng.randrange(8)] for p in range(6) if rng.random() < 0.5]})
         else:
             ops.append({"t": t, "who": "reader", "kind": "read", "pid": rng.randrange(6), "off": rng.randrange(10),
                         "max": rng.choice([1, 5, 100])})
@@ -972,6 +975,8 @@ class GMember(Entity):
         self.idx, self.lw = idx, lw
         self.polled = {}      # pid -> next offset after the last poll
         self.mine = {}        # pid -> greatest offset this member committed
+        self.saved = {}
+        self.last_map = {}
 
     def handle_event(self, ev):
         op = ev.context["metadata"]["op"]
@@ -985,7 +990,15 @@ class GMember(Entity):
             yield from g.leave(self.name)
         elif k == "poll":
             gen0 = g.generation
+            floor = dict(g._committed_offsets.get(self.name, {}))   # committed offsets only grow: a later poll starts >= these
             recs = yield from g.poll(self.name, max_records=int(op.get("max", 10)))
+            for r in recs:
+                if r.offset < floor.get(r.partition, 0):
+                    raise Violation("C19/committed-offsets-monotonic/ConsumerGroup/record-below-committed-offset-handed-out-again",
+                                    f"{self.name} had committed offset {floor[r.partition]} for partition {r.partition} before "
+                                    f"polling, and the poll handed out offset {r.offset} again")
+            if any(v > 0 for v in floor.values()) and recs:
+                lw.polls_after_commit += 1
             if g.generation != gen0:
                 lw.churn_during_poll += 1
             lw.check_records(recs, f"poll by {self.name}", "ConsumerGroup", int(op.get("max", 10)), per_partition=True)
@@ -995,15 +1008,35 @@ class GMember(Entity):
                 lw.polled_records += len(recs)
         elif k == "commit":
             how = op.get("how", "polled")
+            mask = int(op.get("mask", 0))
             if how == "polled":
                 offs = {p: o for p, o in sorted(self.polled.items()) if o >= self.mine.get(p, 0)}
             elif how == "rewind":
                 offs = {p: max(0, o - int(op.get("k", 1))) for p, o in sorted(self.mine.items())}
+            elif how == "mixed":      # one map: some partitions advance (polled position), others are stale (rewound)
+                offs = {}
+                for p in sorted(set(self.polled) | set(self.mine)):
+                    if (mask >> p) & 1:
+                        offs[p] = max(0, self.mine.get(p, self.polled.get(p, 0)) - int(op.get("k", 1)))
+                    elif p in self.polled:
+                        offs[p] = self.polled[p]
+            elif how == "saved":      # a map assembled at an earlier commit is sent (again) later: partially stale by now
+                offs = dict(self.saved) if self.saved else dict(sorted(self.polled.items()))
+                self.saved = dict(sorted(self.polled.items()))
+            elif how == "dup":        # duplicated commit message
+                offs = dict(self.last_map)
+            elif how == "map":        # explicit multi-partition map
+                offs = {int(p) % lw.nparts: int(o) for p, o in (op.get("map") or []) if isinstance(o, int) and o >= 0}
             else:
                 offs = {int(op.get("pid", 0)) % lw.nparts: int(op.get("off", 0))}
             if offs:
+                adv = [p for p, o in offs.items() if o > self.mine.get(p, 0)]
+                stale = [p for p, o in offs.items() if o < self.mine.get(p, 0)]
+                if adv and stale:
+                    lw.partially_stale_commits += 1
                 for p, o in offs.items():
                     self.mine[p] = max(self.mine.get(p, 0), o)
+                self.last_map = dict(offs)
                 yield from g.commit(self.name, offs)
         return None
 
@@ -1073,6 +1106,7 @@ class LogWorld:
         self.membership_dirty = False
         self.last_change = None
         self.bounces = self.quiescent_checks = 0
+        self.partially_stale_commits = self.polls_after_commit = 0
         self.rebalances_multi = 0
         self.joined = self.churn_during_poll = self.polled_records = self.commit_smaller = self.expired = 0
 
@@ -1130,11 +1164,17 @@ class LogWorld:
             self.check_assignment("-at-quiescence")
         for name, offs in g._committed_offsets.items():
             mine = self.committed.setdefault(name, {})
+            prev = dict(mine)
             for pid, off in offs.items():
                 old = mine.get(pid)
                 if old is not None and off < old:
-                    raise Violation("C19/committed-offsets-monotonic/ConsumerGroup/commit-of-smaller-offset-moves-committed-offset-back",
-                                    f"{name} partition {pid}: committed offset went {old} -> {off} (during {ev.event_type})")
+                    cm = ev.context.get("offsets") if ev.event_type == "Commit" else None
+                    partial = isinstance(cm, dict) and any(offs.get(q, 0) > prev.get(q, 0) for q in cm if q != pid)
+                    d = ("partially-stale-multi-partition-commit-moves-a-committed-offset-back" if partial
+                         else "commit-of-smaller-offset-moves-committed-offset-back")
+                    raise Violation(f"C19/committed-offsets-monotonic/ConsumerGroup/{d}",
+                                    f"{name} partition {pid}: committed offset went {old} -> {off} (during {ev.event_type}"
+                                    + (f" of {cm}" if cm else "") + ")")
                 mine[pid] = off
 
     def check_assignment(self, when=""):
@@ -1229,6 +1269,8 @@ def run_log(sc):
     counters = {"probe.l_rebalance_multi": int(lw.rebalances_multi > 0), "probe.l_retention_expired": int(lw.expired > 0),
                 "probe.l_commit_smaller": smaller, "probe.l_churn_during_poll": int(lw.churn_during_poll > 0),
                 "probe.l_bounce_inside_rebalance_delay": int(lw.bounces > 0),
+                "probe.l_partially_stale_multi_partition_commit": int(lw.partially_stale_commits > 0),
+                "probe.l_poll_after_commit_returns_records": int(lw.polls_after_commit > 0),
                 "probe.l_assignment_checked_at_quiescence": int(lw.quiescent_checks > 0),
                 "l_appends": sum(lw.hw), "l_polled_records": lw.polled_records, "l_rebalances": lw.group.stats.rebalances,
                 "budget_runs": int(status == "budget")}
